@@ -89,13 +89,50 @@ def path (big : α) (v : Array String) : String :=
   let evs : List (PEv α) := parseEvs v (rdNat v 0) 1 ⟨Scalar.zero, Scalar.zero⟩ []
   unwords ["box", fBox (Aabb.boundingBox big evs), "fbox", fBox (Aabb.fastBoundingBox big evs)]
 
+def fXf (m : Xf α) : String :=
+  unwords [fx m.m11, fx m.m12, fx m.m21, fx m.m22, fx m.m31, fx m.m32]
+
+def styleOf : Nat → FitStyle
+  | 0 => .stretch
+  | 1 => .min
+  | 2 => .max
+  | 3 => .horizontal
+  | _ => .vertical
+
+/-- position just after the event list `n (…)*` that starts at token 0 -/
+def skipEvs (v : Array String) : Nat → Nat → Nat
+  | 0, i => i
+  | fuel+1, i =>
+    match v.getD i "" with
+    | "B" => skipEvs v fuel (i+3)
+    | "L" => skipEvs v fuel (i+3)
+    | "Q" => skipEvs v fuel (i+5)
+    | "C" => skipEvs v fuel (i+7)
+    | "E" => skipEvs v fuel (i+2)
+    | _ => i
+
+def fit (big : α) (v : Array String) : String :=
+  let n := rdNat v 0
+  let evs : List (PEv α) := parseEvs v n 1 ⟨Scalar.zero, Scalar.zero⟩ []
+  let j := skipEvs v n 1
+  let dst : Box α := ⟨rdP v j, rdP v (j+2)⟩
+  let style := styleOf (rdNat v (j+4))
+  let src := Aabb.boundingBox big evs
+  let fitted := Fit.fitPath big evs dst style
+  unwords ["src", fBox src,
+    "stretch", fXf (Fit.fitBox src dst .stretch), "min", fXf (Fit.fitBox src dst .min),
+    "max", fXf (Fit.fitBox src dst .max), "horizontal", fXf (Fit.fitBox src dst .horizontal),
+    "vertical", fXf (Fit.fitBox src dst .vertical),
+    "fitted", fBox (Aabb.boundingBox big fitted), fBox (Aabb.fastBoundingBox big fitted)]
+
 def families : List Family := [
   ⟨"seg", seg (α := Float32), seg (α := Float)⟩,
   ⟨"tri", tri (α := Float32), tri (α := Float)⟩,
   ⟨"quad", quad (α := Float32), quad (α := Float)⟩,
   ⟨"cubic", cubic (α := Float32), cubic (α := Float)⟩,
   ⟨"arc", arc (α := Float32), arc (α := Float)⟩,
-  ⟨"path", path (Float32.ofBits 0x7f7fffff), path (Float.ofBits 0x47efffffe0000000)⟩ ]
+  ⟨"path", path (Float32.ofBits 0x7f7fffff), path (Float.ofBits 0x47efffffe0000000)⟩,
+  ⟨"fit", fit (Float32.ofBits 0x7f7fffff), fit (Float.ofBits 0x47efffffe0000000)⟩ ]
 
 end Lyon.Drive.C11
 
